@@ -1,3 +1,4 @@
+import os
 """Checks of the noise engine: C05 (and shared pieces for C06, C07, C08)."""
 import json
 
@@ -104,6 +105,9 @@ def c05(pid, tier, seed, selftest=False):
     cfgs += [{"cmd": cmd, "cause": "malformed_keyring", "prior": "absent", "inp": "file", "outp": "file", "kr": kr, "long": False, "alias": False,
               "sender": "first", "krbad": kb}
              for cmd in ("encrypt", "decrypt") for kr in ("opt", "env") for kb in ("dup_name", "dup_name_first", "dup_key", "dup_key_first", "dup_name_bob")]
+    # ... and with "-f alice" added to a decryption whose sender is NOT in the keyring (an option a later version might grow)
+    cfgs += [{"cmd": "decrypt", "cause": "none", "prior": "absent", "inp": "file", "outp": "file", "kr": "opt", "long": lng, "alias": False,
+              "sender": snd, "probe_from": True} for snd in ("absent", "badsum", "last") for lng in (False, True)]
     cevs = checks_cli.run_configs(rep, pid, "cli-sender", w, cfgs, ["C05_"])
     rep.extra["cli_sender_reports"] = {k: sum(1 for e in cevs if e["named"] == k) for k in set(e["named"] for e in cevs)}
     rep.exhaustive = True
@@ -252,6 +256,38 @@ def c06(pid, tier, seed, selftest=False):
     import cli_rt
     cli_rt.run(rep, pid, tpl, seed, "C06", "pass", thorough)
     cli_rt.run(rep, pid, tpl, seed, "C06", "key", False)
+    # "every file conforming to that format - however it is split into chunks" also at the tool, named by path: spec-built
+    # files whose size modulo a full record (65 568) is 1, 5, 16, 31, 32, 33 (short non-final chunks, as a pipe leaves them)
+    import checks_cli
+    w6 = checks_cli.World(pid, tpl, seed)
+    evs6 = []
+    for k, tail in enumerate([1, 5, 16, 31, 32, 33, 65567]):
+        for api in ("key", "pass"):
+            total = 65568 + tail - 96
+            chunks = [30000, 30000, total - 60000] if total - 60000 <= 65536 else [65536, 100, total - 65636]
+            out = os.path.join(w6.dir, "cz%d%s.ktl" % (k, api))
+            op = {"op": "specfile", "api": api, "chunks": chunks, "pseed": 30 + k, "tag": "cz%d" % k, "out": out}
+            if api == "key":
+                op.update({"s_priv_hex": w6.keys["alice"]["sk_hex"], "r_pub_hex": w6.keys["bob"]["pk_hex"]})
+            else:
+                op["password_hex"] = b"file-pw".hex()
+            cli.driver_ops(pid, tpl, [op], seed, "cz")
+            plain = open(out + ".plain", "rb").read()
+            with cli.Sandbox(pid, "cz") as sb:
+                sb.write("kr.txt", w6.keyring())
+                sb.write("in.ktl", open(out, "rb").read())
+                if api == "key":
+                    r = cli.kestrel(["decrypt", sb.path("in.ktl"), "-t", "bob", "-o", sb.path("o.bin"), "-k", sb.path("kr.txt"), "--env-pass"],
+                                    env={"KESTREL_PASSWORD": "bob-pw"})
+                else:
+                    r = cli.kestrel(["password", "decrypt", sb.path("in.ktl"), "-o", sb.path("o.bin"), "--env-pass"], env={"KESTREL_PASSWORD": "file-pw"})
+                got = sb.read("o.bin")
+            evs6.append({"ev": "rt", "id": "rt%d" % (900 + 2 * k + (api == "pass")), "prop": "C06", "api": api, "plen": len(plain), "wiring": "files",
+                         "history": "chunks %s" % chunks, "enc_exit": 0, "dec_exit": r.rc, "same": got == plain, "got_len": -1 if got is None else len(got),
+                         "spec_ok": True, "named": True, "stderr": r.err_text[-200:]})
+    for e_ in evs6:
+        rep.case("by-path:" + e_["history"] + e_["api"], True)
+    checks_cli.validate_events(rep, pid, "chunked-by-path", evs6, ["C06_"])
     n, ex = st.drift(runs)
     rep.extra["model_drift"] = "none" if n == 0 else "%d runs differ from the Layer-B prediction" % n
     return rep.finish()
@@ -460,6 +496,8 @@ def c07(pid, tier, seed, selftest=False):
     rep.sample({"history": hists[0], "events": all_evs[0][:8]})
     rep.extra["draws_recovered"] = sum(1 for e in flat if e["ev"] == "draw")
     rep.extra["seals_observed"] = sum(1 for e in flat if e["ev"] == "seal")
+    import checks_cli as _cc7
+    _cc7.multi_operand_probes(rep, pid, tpl, seed, "C07")
     return rep.finish()
 
 
@@ -510,12 +548,15 @@ def cli_clear(pid, tpl, seed, idx, plen, mode):
                 # nothing of it may survive in the new file
                 sb.write("o.ktl", (cli.keyring_text([(names[0] + str(ident), ks, False), (names[1] + str(ident), kr, False)]) * 3).encode()
                          + b"x" * (plen + 4000))
+            # the plaintext is named by a path; every third time that path is /dev/stdin with the data on a pipe (what a
+            # shell's process substitution amounts to): whatever the tool does with a named input, it must not eat from it
+            in_arg, in_data = (sb.path("plain.bin"), b"") if idx % 3 != 2 else ("/dev/stdin", bytes((i * 13 + 5) % 256 for i in range(plen)))
             if mode == "key":
-                r = cli.kestrel(["encrypt", sb.path("plain.bin"), "-t", names[1] + str(ident), "-f", names[0] + str(ident), "-o", sb.path("o.ktl"),
-                                 "-k", sb.path("kr.txt"), "--env-pass"], env={"KESTREL_PASSWORD": "pw-s"})
+                r = cli.kestrel(["encrypt", in_arg, "-t", names[1] + str(ident), "-f", names[0] + str(ident), "-o", sb.path("o.ktl"),
+                                 "-k", sb.path("kr.txt"), "--env-pass"], env={"KESTREL_PASSWORD": "pw-s"}, stdin=in_data)
             else:
-                r = cli.kestrel(["password", "encrypt", sb.path("plain.bin"), "-o", sb.path("o.ktl"), "--env-pass"],
-                                env={"KESTREL_PASSWORD": names[ident]})
+                r = cli.kestrel(["password", "encrypt", in_arg, "-o", sb.path("o.ktl"), "--env-pass"],
+                                env={"KESTREL_PASSWORD": names[ident]}, stdin=in_data)
             data = sb.read("o.ktl") or b""
         if r.rc != 0:
             # a valid invocation that fails is C12's statement; here it only means nothing can be observed
@@ -535,9 +576,21 @@ def cli_clear(pid, tpl, seed, idx, plen, mode):
     if mode == "pass":
         # in password mode only the names (used as passwords here) are identities
         found = any(nm.encode() in d or base64.b64encode(nm.encode()) in d for d in (d0, d1) for nm in names if len(nm) >= 12)
+    n1, fr1 = parse_layout(d1, h)
     clear_equal = len(d0) == len(d1) and d0[:4] == d1[:4]
     clear_bytes = d0[:4] + d1[:4]
-    if clear_equal:
+    def rec_lens(d):
+        out, off = [], h
+        while off + 16 <= len(d):
+            ln_ = struct.unpack(">I", d[off + 12:off + 16])[0]
+            out.append(ln_)
+            off += 32 + ln_
+        return out
+    if idx % 3 == 2 and rec_lens(d0) != rec_lens(d1):
+        # piped input: how the pipe happened to deliver the data decides the chunking, run by run; files of different
+        # chunkings are each held to the size formula, and only their magic is compared
+        clear_equal = d0[:4] == d1[:4]
+    elif clear_equal:
         off = h
         while off + 16 <= len(d0):
             clear_bytes += d0[off:off + 16] + b"|" + d1[off:off + 16] + b"|"
@@ -552,7 +605,7 @@ def cli_clear(pid, tpl, seed, idx, plen, mode):
                 if 2 <= len(nm) < 12 and nm.encode() in clear_bytes:
                     found = True
     return {"ev": "clear", "id": "cli.%s.%d" % (mode, idx), "api": mode, "plen": plen, "H": h, "ok": rc0 == 0 and rc1 == 0,
-            "flen": len(d0), "flen_b": len(d1), "nrec": n0, "framing_ok": fr0, "clear_equal": clear_equal, "identity_found": found}
+            "flen": len(d0), "flen_b": len(d1), "nrec": n0, "nrec_b": n1, "framing_ok": fr0 and fr1, "clear_equal": clear_equal, "identity_found": found}
 
 
 def c08(pid, tier, seed, selftest=False):
